@@ -257,6 +257,8 @@ pub fn c05(ctx: &mut Ctx) -> (u64, String) {
     ctx.part("fault-sequences:any frame then a valid frame on one decoder (bit-serial)", json!({"first_frames": 2048, "second_frames": 256, "pairs": pairs}));
     // (5) and after clear() from every partial prefix every frame is judged by the same rule
     report_clear_sweep(ctx);
+    ctx.sample_run("ps2", &["word:0402", "word:0403", "word:0002", "word:0602", "word:07FE"]);
+    ctx.sample_run("kb:echo-0:set2:Ignore", &["word:0402", "word:0403", "word:05C0", "word:0438"]);
     ctx.sample(json!({"word": "0x402", "bits": "start=0 data=0x01 parity=0 stop=1", "reference": "Ok(0x01)"}));
     ctx.sample(json!({"word": "0x403", "reference": "Err(BadStartBit) (priority over the now-wrong parity)"}));
     ctx.sample(json!({"word": "0x002", "reference": "Err(BadStopBit)"}));
@@ -760,6 +762,7 @@ pub fn c06(ctx: &mut Ctx) -> (u64, String) {
         ctx.traces_validated += n;
         ctx.part("pump:frame pairs (w1 w2)^6", json!({"engine": "B pumped streams", "first_frames": 2048, "second_frames": seconds.len(), "repetitions": reps, "bit_positions_checked": n, "violations_recorded": nb}));
     }
+    ctx.sample_run("ps2", &["bit:0", "bit:1", "bit:0", "bit:0", "bit:0", "bit:0", "bit:0", "bit:0", "bit:0", "bit:0", "bit:1", "bit:1", "bit:0", "bit:1", "clear", "bit:0", "bit:1", "bit:0", "bit:0", "bit:0", "bit:0", "bit:0", "bit:0", "bit:0", "bit:0", "bit:1"]);
     ctx.sample(json!({"bits": "0 10000000 0 1", "reference": "10 x Ok(None), then Ok(Some(0x01))"}));
     ctx.sample(json!({"history": "corrupted frame 0x403 (bad start) then valid frame 0x402", "reference": "Err(BadStartBit) at bit 11, Ok(Some(0x01)) at bit 22"}));
     ctx.sample(json!({"history": "5 bits 10110, clear(), frame 0x402", "reference": "Ok(Some(0x01)) at the 11th bit after clear"}));
